@@ -16,15 +16,20 @@ RowOf(p) == p % 512
 \* strace makes the child a tracee: ptrace combinations can not run under it, and the self-SIGSTOP of
 \* a pid-namespace init is then NOT ignored, so every stop-before-sync combination hangs there
 NoStrace(o) == o.ptrace \/ (o.stop /\ o.sync /\ ~PS(o))
-\* C04 indices are (x*512 + site)*512 + row, x = the credential / gid-mapping dimension (LaunchSteps!MkOptX).
+\* C04 indices are ((y*8 + x)*512 + site)*512 + row: x = credential / gid-mapping dimension, y = UTS name
+\* dimension (LaunchSteps!MkOptXY).
 \* Credential gate, generated and run in every tier: {cred, cred+dropcaps} x {no user namespace, user namespace}
 \* x all eight x: every way of asking for supplementary groups meets every way setgroups may be (dis)allowed.
-XOf(p) == p \div 262144
-CredGate == { (xx * 512 + s) * 512 + r : xx \in 0..7, s \in {1, 3}, r \in {0, 1} }
-C04Cases == { [s |-> SiteOf(p) % 512, r |-> RowOf(p), xd |-> XOf(p), opt |-> MkOptX(SiteOf(p) % 512, RowOf(p), XOf(p)),
+XOf(p) == (p \div 262144) % 8
+YOf(p) == p \div 2097152
+CredGate == { ((YDefault * 8 + xx) * 512 + s) * 512 + r : xx \in 0..7, s \in {1, 3}, r \in {0, 1} }
+\* UTS gate, generated and run in every tier: all nine (host name, domain name) requests in a UTS namespace,
+\* plain and with credential + capability drop in a user namespace
+UtsGate == { ((yy * 8) * 512 + s) * 512 + r : yy \in 0..8, s \in {0, 3}, r \in {8, 9} }
+C04Cases == { [s |-> SiteOf(p) % 512, r |-> RowOf(p), xd |-> XOf(p), yd |-> YOf(p), opt |-> MkOptXY(SiteOf(p) % 512, RowOf(p), XOf(p), YOf(p)),
                hang |-> HangCombo(MkOpt(SiteOf(p) % 512, RowOf(p))),
-               nostrace |-> NoStrace(MkOpt(SiteOf(p) % 512, RowOf(p))), gate |-> p \in CredGate,
-               fail |-> "none", idx |-> 0, cb |-> "ok"] : p \in (IF C04Pairs = {} THEN {} ELSE C04Pairs \cup CredGate) }
+               nostrace |-> NoStrace(MkOpt(SiteOf(p) % 512, RowOf(p))), gate |-> p \in CredGate \cup UtsGate,
+               fail |-> "none", idx |-> 0, cb |-> "ok"] : p \in (IF C04Pairs = {} THEN {} ELSE C04Pairs \cup CredGate \cup UtsGate) }
 
 \* failure points with a real-input recipe (harness/cmd/launch/c07.go) and what the recipe needs
 Recipes ==
